@@ -28,6 +28,8 @@ ASSUMPTIONS = ["asyncio schedules every runnable task eventually (fairness) and 
                "the application does not cancel connect/send/close tasks and calls close() at most once",
                "build_network_map=False (no _seed_network_map task)"]
 IMPORTS = "From NV Require Import Base ClientLTS CorrClientLTS."
+MAX_POS = 160        # injection positions per base session (an unchanged client has 30-60 event-loop steps per session;
+                     # a changed one that never settles must not multiply the work by thousands)
 _CACHE = {}
 
 
@@ -73,7 +75,7 @@ def fault_specs(ctx):
             stride = 1 if (thorough or (s["cb"] == "ret" and f != "refuse3_eof")) else 2
             if f == "refuse7_reset" and not thorough:      # delays 0.5 .. 8, 10, 10 s: reaches the cap
                 stride = 4
-            for at in range(0, npos + 1, stride):
+            for at in range(0, min(npos, MAX_POS) + 1, stride):
                 sp = dict(sf)
                 sp["inject"] = {"at": at, "ops": vloop.FAULTS[f]}
                 inj.append((sp, {"client": s["client"], "cb": s["cb"], "fault": f, "at": at}))
